@@ -58,6 +58,16 @@ func resolveLite(root *ggql.Root, req *workload.Request, vars map[string]interfa
 	return workload.CanonLite(root.ResolveString(req.Src, req.Op, vars))
 }
 
+func scalarOnly(v map[string]interface{}) bool {
+	for _, x := range v {
+		switch x.(type) {
+		case map[string]interface{}, []interface{}:
+			return false
+		}
+	}
+	return true
+}
+
 func copyVars(v map[string]interface{}) map[string]interface{} {
 	if v == nil {
 		return nil
@@ -120,6 +130,27 @@ func (c C12) Run(t *tape.Tape, opt core.RunOpt) (res core.Result) {
 		pool[i] = workload.GenRequest(t, workload.ReqOpt{Strat: strat, MultiOp: !pathMode && t.Bool(1, 4), Introspection: !pathMode, NoUnion: noUnion, Ghost: extras && t.Bool(1, 2), Relay: extras && t.Bool(1, 2), Pick: extras && t.Bool(1, 2), Nick: extras && t.Bool(1, 2), Span: extras && t.Bool(1, 2),
 			VarInLiteral: strat != workload.StratReflect, ShuffleArgs: true, MaxDepth: 2 + t.Draw(3), PathMode: pathMode})
 	}
+	if strat == workload.StratReflect && t.Bool(1, 8) {
+		// two Go structs behind one GraphQL type, whichever is seen first. The
+		// library looks a Go field up by name in the value at hand, so plain
+		// fields that both structs have resolve the same in either order; fields
+		// or methods only one of them has would not (first come, first bound),
+		// which is why these runs keep to the fixed requests.
+		pool = pool[:0]
+		for k := 0; k < 2+t.Draw(3); k++ {
+			pool = append(pool, &workload.Request{Src: workload.AltRequests[t.Draw(len(workload.AltRequests))]})
+		}
+	}
+	// a quarter of the runs hand ONE variables map instance to every caller
+	// (scalar values only: the library coerces nested values in place, and a
+	// request owns those)
+	shareVars := t.Bool(1, 4)
+	varsFor := func(r *workload.Request) map[string]interface{} {
+		if shareVars && scalarOnly(r.Vars) {
+			return r.Vars
+		}
+		return copyVars(r.Vars)
+	}
 	base := make([]string, len(pool))
 	for i, r := range pool {
 		var b [2]string
@@ -137,7 +168,7 @@ func (c C12) Run(t *tape.Tape, opt core.RunOpt) (res core.Result) {
 			cfgB.Fine = false
 			cfgB.Direct = nil
 			sb := sched.New(t, cfgB)
-			sb.Go("alone", func(tk *sched.Task) { b[k] = resolveLite(zb.Root, r, copyVars(r.Vars)) })
+			sb.Go("alone", func(tk *sched.Task) { b[k] = resolveLite(zb.Root, r, varsFor(r)) })
 			racesB := runScheduled(sb)
 			if sb.Deadlock != "" || sb.Runaway {
 				res.Evaluations = 1
@@ -192,7 +223,7 @@ func (c C12) Run(t *tape.Tape, opt core.RunOpt) (res core.Result) {
 				for _, ri := range idxs {
 					r := pool[ri]
 					sc.Stamp("invoke|req"+strconv.Itoa(ri), "call")
-					out := resolveLite(zr.Root, r, copyVars(r.Vars))
+					out := resolveLite(zr.Root, r, varsFor(r))
 					sc.Stamp("return|req"+strconv.Itoa(ri), "call")
 					results[ti] = append(results[ti], slot{req: ri, resp: out})
 				}
